@@ -161,7 +161,8 @@ impl Prop for C15 {
         if tier != Tier::Thorough {
             return Vec::new();
         }
-        crate::fuzz::run(
+        let mut v = miri_extra(seed, ev);
+        v.extend(crate::fuzz::run(
             &crate::fuzz::Campaign {
                 property: "C15",
                 target: "cq_memory",
@@ -172,7 +173,8 @@ impl Prop for C15 {
                 seeds: crate::fuzz::random_seeds(seed, 24, 600),
             },
             ev,
-        )
+        ));
+        v
     }
 }
 
